@@ -149,6 +149,7 @@ package storage
 //@   requires q != nil && q.add != nil && !chanClosed(q.add) && ctx != nil
 //@   ensures [C11.add.chan] result != nil && fresh(result) && cap(result) == 1
 //@   ensures [C11.add.open] !chanClosed(result) && len(result) == 0      // Add itself never answers: a closed channel means "applied", and only the event loop may say so
+//@   ensures [C11.add.handed] len(q.add) == old(len(q.add)) + 1      // every waiter is handed to the event loop - exactly once - before Add returns
 //@   before send assert [C11.add.item] sentTo == q.add && sent != nil && sent.ctx == ctx && sent.table == table && sent.revision == revision
 //@   modifies family(CH_len)
 
@@ -158,6 +159,7 @@ package storage
 //@ func (*IndexNotificationQueue).Notify
 //@   requires q != nil && q.notif != nil && !chanClosed(q.notif)
 //@   before send assert [C11.notify.msg] sent.table == table && sent.revision == revision && sentTo == q.notif
+//@   ensures [C11.notify.always] len(q.notif) == old(len(q.notif)) + 1      // EVERY applied index is passed on - no notification is filtered out on the way (one more message in flight to the event loop)
 //@   modifies family(CH_len)
 //@ func (*IndexNotificationQueue).Len
 //@   maypanic
@@ -299,6 +301,25 @@ package storage
 //@   ensures [C10.engine.range.path] err == nil && req.Linearizable ==> e.Manager.nh.nsync == old(e.Manager.nh.nsync) + 1 && e.Manager.nh.nstale == old(e.Manager.nh.nstale)
 //@   ensures [C16.engine.notfound.range] e.Manager.store.rMiss["/tables/" + string(req.Table)] ==> errIs(err, serrors.ErrTableNotFound)      // an unknown table stays recognisable as such for the API layer (errors.Is)
 //@   modifies family(G_any_nsync), family(G_any_nstale), family(G_any_lastReq), family(G_any_lastAns), family(G_any_rHas), family(G_any_rMiss), family(G_any_rPair), allfields(regattapb.RangeResponse)
+
+// Engine.IterateRange: like Range - the consistency level asked for decides the read path, an unknown
+// table stays recognisable - and the stream handed back is the table's stream mapped chunk by chunk
+// (IterateRange$1, above; iter.Map's closures are verified in util/iter)
+//@ import iter "github.com/jamf/regatta/util/iter"
+//@ func iter.Map[*regattapb.ResponseOp_Range,*regattapb.RangeResponse]
+//@   assumed
+//@   params seq, fn
+//@   ensures result != nil
+//@   modifies nothing
+//@ func (*Engine).IterateRange
+//@   maypanic
+//@   results resp, err
+//@   requires e != nil && e.Manager != nil && e.Cluster != nil && e.Cluster.shardView != nil && req != nil && ctx != nil && e.Manager.store != nil && e.Manager.nh != nil
+//@   ensures [C10.engine.iterate.path+C09] err == nil && req.Linearizable ==> e.Manager.nh.nsync == old(e.Manager.nh.nsync) + 1 && e.Manager.nh.nstale == old(e.Manager.nh.nstale)
+//@   ensures [C10.engine.iterate.stale] err == nil && !req.Linearizable ==> e.Manager.nh.nstale == old(e.Manager.nh.nstale) + 1 && e.Manager.nh.nsync == old(e.Manager.nh.nsync)
+//@   ensures [C16.engine.notfound.iterate] e.Manager.store.rMiss["/tables/" + string(req.Table)] ==> errIs(err, serrors.ErrTableNotFound)
+//@   ensures err == nil ==> resp != nil
+//@   modifies family(G_any_nsync), family(G_any_nstale), family(G_any_lastReq), family(G_any_lastAns), family(G_any_rHas), family(G_any_rMiss), family(G_any_rPair)
 
 // ---------------------------------------------------------------- constructor wiring (C06, C13/C14)
 
